@@ -270,10 +270,11 @@ func (r *Reliable) send() {
 				r.sender.senderWindow.state = FastRecovery // will switch to AIMD on the next successful ack
 			}
 
-			if r.sender.RTO > maxRTO && len(r.sender.frames) > 0 {
-				logrus.Errorf("REL: RTO exeeded, dropping frame n° %v", r.sender.frames[0].frameNo)
-				r.sender.frames = r.sender.frames[1:]
-				r.sender.RTO = r.sender.RTT
+			// Cap the back-off. The unacknowledged frames stay in the
+			// retransmission buffer: only an acknowledgement may remove a
+			// frame, otherwise the stream can never be completed.
+			if r.sender.RTO > maxRTO {
+				r.sender.RTO = maxRTO
 			}
 
 			r.sender.resetRetransmitTicker()
